@@ -1010,6 +1010,72 @@ def divzero(ctx: Ctx) -> None:
                             safe = True
             ctx.ob(d, b, safe, f"`{unparse(b, 60)}` divides by a length" + (" that is protected against zero" if safe else ": nothing excludes the empty case — ZeroDivisionError for an empty/0-d operand instead of an explicit error"), sel=f"div:{unparse(b.right, 40)}")
     ctx.need(n >= 2, f"only {n} divisions by a length found")
+    # --- task-time division by a user-supplied number -------------------------------------
+    # A public function that hands one of its own parameters to code that runs inside tasks
+    # (a nested key function, or a block function registered with general_blockwise /
+    # map_blocks by keyword) where it is a divisor must exclude zero while the expression is
+    # built; otherwise the request is accepted and dies after execution has started.
+    pub = {f.qual: f for f in public_functions(repo).values()}
+    m = 0
+    for P in pub.values():
+        if P.module.qual.startswith(("cubed.vendor.", "cubed.diagnostics.")):
+            continue
+        divisors: dict[str, list[tuple[Def, ast.AST]]] = {}
+        # (a) closures defined in P
+        for child in P.children.values():
+            if not child.is_func:
+                continue
+            for b in child.own_nodes():
+                if isinstance(b, (ast.BinOp, ast.AugAssign)) and isinstance(b.op, (ast.Div, ast.FloorDiv, ast.Mod)):
+                    r = b.right if isinstance(b, ast.BinOp) else b.value
+                    if isinstance(r, ast.Name) and r.id in P.params and r.id not in child.params:
+                        divisors.setdefault(r.id, []).append((child, b))
+        # (b) block functions that receive the parameter by keyword at a registering call
+        for c in P.own_nodes():
+            if not (isinstance(c, ast.Call) and c.args and c.keywords):
+                continue
+            ts = repo.resolve_call(c, P, P.module)
+            if not any(t.kind == "def" and t.ref.name in ("general_blockwise", "map_blocks", "blockwise", "map_selection", "map_overlap") for t in ts):
+                continue
+            funcs = [t.ref for a in c.args[:1] for t in repo.resolve_value(a, P, P.module) if t.kind == "def" and t.ref.is_func]
+            for k in c.keywords:
+                if k.arg is None or not (isinstance(k.value, ast.Name) and k.value.id in P.params):
+                    continue
+                for F in funcs:
+                    if k.arg not in F.params:
+                        continue
+                    for b in F.own_nodes():
+                        if isinstance(b, (ast.BinOp, ast.AugAssign)) and isinstance(b.op, (ast.Div, ast.FloorDiv, ast.Mod)):
+                            r = b.right if isinstance(b, ast.BinOp) else b.value
+                            if isinstance(r, ast.Name) and r.id == k.arg:
+                                divisors.setdefault(k.value.id, []).append((F, b))
+        if not divisors:
+            continue
+        pcfg = cfg_of(P)
+        for prm, sites in sorted(divisors.items()):
+            m += 1
+            # a build-time guard: an `if` on the parameter's value (compared with a number)
+            # whose branch raises, or a normalisation max(param, k>=1)
+            guarded = False
+            for bn in pcfg.stmts(ast.If):
+                t = bn.stmt.test
+                cmp_ = [x for x in ast.walk(t) if isinstance(x, ast.Compare) and isinstance(x.left, ast.Name) and x.left.id == prm and any(isinstance(cc, ast.Constant) and isinstance(cc.value, (int, float)) and not isinstance(cc.value, bool) for cc in x.comparators)]
+                if cmp_ and any(isinstance(x, ast.Raise) for st_ in bn.stmt.body + bn.stmt.orelse for x in ast.walk(st_)):
+                    guarded = True
+            for a_ in P.own_nodes():
+                if isinstance(a_, ast.Assign) and isinstance(a_.targets[0], ast.Name) and a_.targets[0].id == prm and isinstance(a_.value, ast.Call) and isinstance(a_.value.func, ast.Name) and a_.value.func.id == "max" and any(isinstance(x, ast.Constant) and isinstance(x.value, (int, float)) and x.value >= 1 for x in a_.value.args):
+                    guarded = True
+            F, b = sites[0]
+            ctx.ob(
+                P,
+                b,
+                guarded,
+                f"`{P.name}` passes its parameter `{prm}` to task-time code that divides by it (`{unparse(b, 40)}` in {F.name})"
+                + (": its value is checked while the expression is built" if guarded else f": nothing excludes `{prm}` = 0 at build time — the request is accepted, planned, and fails inside a task with ZeroDivisionError"),
+                sel=f"div-param:{prm}",
+                loc=f"{F.module.relpath}:{getattr(b, 'lineno', F.lineno)}",
+            )
+    ctx.note(f"DIVZERO-1: {m} public parameter(s) used as task-time divisors")
 
 
 ROLE_PAIRS = [("before", "after"), ("after", "before")]
